@@ -115,6 +115,7 @@ SameSeq(xs, ys) == Len(xs) = Len(ys) /\ \A i \in 1..Len(xs) : Same(xs[i], ys[i])
 \* that formats native values, the others are handed on to AsPDF of
 \* non-native objects.
 AllOpts == {"DictTypes", "TrimStandardFonts", "Pretty", "TextStringUtf8", "ContentStream"}
+AllOptSets == SUBSET AllOpts
 IsPretty(opts) == "Pretty" \in opts
 
 \* formatName
